@@ -77,6 +77,9 @@ func nativeReplay(w *World, repo, verif string, overlay map[string][]byte, resul
 			if wt.Kind == "panic" {
 				exp = "panic"
 			}
+			if wt.Kind == "bound" {
+				exp = "crash"
+			}
 			pv.vecs = append(pv.vecs, replayVec{ID: id, Harness: fname, Values: wt.Values, Expect: exp})
 			witByID[id] = wt
 		}
@@ -111,6 +114,8 @@ func nativeReplay(w *World, repo, verif string, overlay map[string][]byte, resul
 		if len(pv.vecs) == 0 {
 			continue
 		}
+		// inputs expected to exhaust the stack or hang kill the test process: run them last
+		sort.SliceStable(pv.vecs, func(i, j int) bool { return pv.vecs[i].Expect != "crash" && pv.vecs[j].Expect == "crash" })
 		vecFile := filepath.Join(tmp, "vectors_"+pv.pkgName+".json")
 		vb, _ := json.Marshal(pv.vecs)
 		os.WriteFile(vecFile, vb, 0o644)
@@ -160,6 +165,8 @@ func nativeReplay(w *World, repo, verif string, overlay map[string][]byte, resul
 		cmd.Stderr = &out
 		runErr := cmd.Run()
 		got := map[string]string{}
+		crashed := runErr != nil && (strings.Contains(out.String(), "stack overflow") || strings.Contains(out.String(), "goroutine stack exceeds") ||
+			strings.Contains(out.String(), "test timed out") || strings.Contains(out.String(), "out of memory"))
 		sc := bufio.NewScanner(&out)
 		sc.Buffer(make([]byte, 1<<20), 1<<24)
 		var tail []string
@@ -180,7 +187,7 @@ func nativeReplay(w *World, repo, verif string, overlay map[string][]byte, resul
 		if os.Getenv("SYMGO_DEBUG") != "" {
 			fmt.Fprintf(os.Stderr, "replay go test: err=%v tail=%s\n", runErr, strings.Join(tail, "\n"))
 		}
-		if len(got) == 0 && runErr != nil {
+		if len(got) == 0 && runErr != nil && !crashed {
 			rep.summary = append(rep.summary, fmt.Sprintf("%s: go test failed: %v: %s", ip, runErr, strings.Join(tail, " | ")))
 		}
 		for _, v := range pv.vecs {
@@ -194,6 +201,13 @@ func nativeReplay(w *World, repo, verif string, overlay map[string][]byte, resul
 				ok = strings.HasPrefix(g, "PANIC")
 			case "pass":
 				ok = strings.HasPrefix(g, "PASS")
+			case "crash":
+				// the process died with a fatal runtime error (or timed out) before this
+				// vector could report: the resource exhaustion is reproduced natively
+				ok = g == "" && crashed
+				if ok {
+					g = "CRASH (fatal runtime error / timeout in the native run)"
+				}
 			}
 			if wt := witByID[v.ID]; wt != nil {
 				rep.reproduced[wt] = ok
